@@ -23,6 +23,8 @@ CodecChecks(e) ==
     \cup (IF "reenc" \in DOMAIN e.flags /\ ~e.flags.reenc /\ e.dec_ok
           THEN {Bad(e, "C09", "re-encoding-differs:" \o e.fmt)} ELSE {})
     \cup (IF "hash_same" \in DOMAIN e.flags /\ ~e.flags.hash_same THEN {Bad(e, "C09", "hash-changed-across-wire:" \o e.fmt)} ELSE {})
+    \cup (IF "derived_same" \in DOMAIN e.flags /\ ~e.flags.derived_same THEN {Bad(e, "C09", "block-differs-after-prune-and-reload-from-disk")} ELSE {})
+    \cup (IF "header_same" \in DOMAIN e.flags /\ ~e.flags.header_same THEN {Bad(e, "C09", "lite-block-header-differs-across-wire")} ELSE {})
     \cup (IF "sig_same" \in DOMAIN e.flags /\ ~e.flags.sig_same THEN {Bad(e, "C09", "signature-verdict-changed-across-wire:" \o e.fmt)} ELSE {})
 
 DecodeChecks(e) ==
